@@ -132,6 +132,59 @@ func checkC19(r *Result) {
 	}
 
 	// AUTH-GATE
+	// gateHelper recognises the common helper form of the check: a repository function that compares the
+	// keeper's authority with one of its string parameters and succeeds only under equality. Returns the
+	// index of that parameter (receiver = 0).
+	gateMemo := map[string]int{}
+	gateHelper := func(name string) (int, bool) {
+		if v, ok := gateMemo[name]; ok {
+			return v, v >= 0
+		}
+		gateMemo[name] = -1
+		fn := P.Func(name)
+		if fn == nil || len(fn.Blocks) == 0 {
+			return -1, false
+		}
+		idx := -1
+		ps := AnalyzePaths(fn, []Atom{{Name: "authorized", Cond: func(rel *Term) (bool, bool) {
+			if rel.Op != "==" || len(rel.Args) != 2 {
+				return false, false
+			}
+			a, b := rel.Args[0], rel.Args[1]
+			isAuth := func(t *Term) bool {
+				return strings.HasPrefix(t.Op, "call:") && isGetAuthority(strings.TrimPrefix(t.Op, "call:"))
+			}
+			par := func(t *Term) int {
+				var n int
+				if strings.HasPrefix(t.Op, "param:") && strings.HasSuffix(t.Op, ":string") {
+					if _, err := fmt.Sscanf(t.Op, "param:%d:", &n); err == nil {
+						return n
+					}
+				}
+				return -1
+			}
+			switch {
+			case isAuth(a) && par(b) >= 0:
+				idx = par(b)
+				return true, true
+			case isAuth(b) && par(a) >= 0:
+				idx = par(a)
+				return true, true
+			}
+			return false, false
+		}}})
+		rets := SuccessReturns(fn)
+		ok := idx >= 0 && len(rets) > 0 && errorResultIndex(fn) >= 0
+		for _, ret := range rets {
+			if bad := ps.Require(ret, func(v map[string]bool) bool { return v["authorized"] }); len(bad) > 0 {
+				ok = false
+			}
+		}
+		if ok {
+			gateMemo[name] = idx
+		}
+		return idx, ok
+	}
 	authHandlers := map[*ssa.Function]bool{}
 	for _, h := range S.Msg {
 		mi := handlerInfo[h]
@@ -152,6 +205,16 @@ func checkC19(r *Result) {
 			if (isAuth(a) && isFld(b)) || (isAuth(b) && isFld(a)) {
 				return true, true
 			}
+			// helper(msg.Authority) == nil
+			for _, pair := range [][2]*Term{{a, b}, {b, a}} {
+				call, other := pair[0], pair[1]
+				if other.Op != "const:nil" || !strings.HasPrefix(call.Op, "call:") {
+					continue
+				}
+				if idx, ok := gateHelper(strings.TrimPrefix(call.Op, "call:")); ok && idx < len(call.Args) && isFld(call.Args[idx]) {
+					return true, true
+				}
+			}
 			return false, false
 		}
 		ps := AnalyzePaths(h, []Atom{{Name: "authorized", Cond: authEq}})
@@ -160,6 +223,9 @@ func checkC19(r *Result) {
 		var badPos token.Pos
 		for _, cs := range P.CallSitesIn(h) {
 			if c19NonEffect[cs.Callee] || isGetAuthority(cs.Callee) || strings.HasPrefix(cs.Callee, "builtin:") {
+				continue
+			}
+			if _, isGate := gateHelper(cs.Callee); isGate {
 				continue
 			}
 			// calls on the error path (reachable only when not authorized and returning) are fine: require authorized at every other call
